@@ -49,6 +49,10 @@ type Universe struct {
 	RegMode   int         `json:"reg_mode,omitempty"`
 	KeyBase   int         `json:"key_base,omitempty"`
 	KeyStride int         `json:"key_stride,omitempty"` // explicit keys are KeyBase + i*KeyStride (0 means 1)
+	// Decoys: the config also registers variables named `true` and `false`, bound to false and true.
+	// No program can mention them - the two words are the boolean literals wherever they stand -, so
+	// they change nothing; a program that reads them has mistaken a literal for a variable.
+	Decoys bool `json:"decoys,omitempty"`
 }
 
 func (u *Universe) Var(name string) *VarDecl {
@@ -63,6 +67,9 @@ func (u *Universe) Var(name string) *VarDecl {
 // Bound returns the bound values, Fail the failing fetches.
 func (u *Universe) Bound() map[string]interface{} {
 	out := map[string]interface{}{}
+	if u.Decoys {
+		out["true"], out["false"] = false, true
+	}
 	for _, v := range u.Vars {
 		if v.Mode == 0 {
 			out[v.Name] = v.Val.X
@@ -413,6 +420,10 @@ func registerVars(cc *eval.Config, u *Universe) {
 		for _, v := range u.Vars[half:] {
 			eval.GetOrRegisterKey(cc, v.Name)
 		}
+	}
+	if u.Decoys {
+		eval.GetOrRegisterKey(cc, "true")
+		eval.GetOrRegisterKey(cc, "false")
 	}
 }
 
